@@ -66,6 +66,8 @@ package messageview
 
 //@ func (*MessageView).SnapshotRequest
 //@   serves C15
+//@   at call 0 of Fprintf before assert[request-line-is-written-from-the-method-target-and-version-of-the-message] len(arg2) == 4 && arg2[0] == iface(req.Method) && arg2[1] == iface(req.URL) && arg2[2] == iface(req.ProtoMajor) && arg2[3] == iface(req.ProtoMinor)
+//@   at call 1 of Fprintf before assert[host-line-is-the-host-of-the-message] len(arg2) == 1 && arg2[0] == iface(req.Host)
 //@   safe index
 //@   requires mv != nil && req != nil && req.URL != nil
 //@   modifies req.Body, mv.message, mv.chunked, mv.compress, mv.bodyoffset, mv.traileroffset, mvReadSrc, mvReadData, mvReaderData, mvReader, mvNopSrc, mvNop, mvCLWritten, mvCLValue
@@ -88,6 +90,7 @@ package messageview
 
 //@ func (*MessageView).SnapshotResponse
 //@   serves C15
+//@   at call 0 of Fprintf before assert[status-line-is-written-from-the-version-and-status-of-the-message] len(arg2) == 3 && arg2[0] == iface(res.ProtoMajor) && arg2[1] == iface(res.ProtoMinor) && arg2[2] == iface(res.Status)
 //@   safe index
 //@   requires mv != nil && res != nil
 //@   modifies res.Body, mv.message, mv.chunked, mv.compress, mv.bodyoffset, mv.traileroffset, mvReadSrc, mvReadData, mvReaderData, mvReader, mvNopSrc, mvNop, mvCLWritten, mvCLValue
